@@ -25,8 +25,11 @@ def run(ctx):
                     ('SimWeightedTally', ['register']), ('SimPersistent', ['register'])],
                    axioms=N.STAT_AXIOMS, depth=12, what='a weighted-tally query')
     ctx.floor('R10.1', 'arithmetic sinks analysed', ctx.extra['numeric']['R10.1']['sinks'], 4)
+    ctx.rule('R10.6', 'the axiom weight_times_variance >= 0 is justified structurally: convex mean step w/W and increment w*(x-old)*(x-new)')
+    N.convex_update(ctx, 'R10.6', {'statistics', 'utils'}, 'WeightedTally', '_weighted_mean', '_weight_times_variance', 'value', N.STAT_AXIOMS)
     classes = ['WeightedTally', 'TimestampWeightedTally', 'EventBasedWeightedTally', 'EventBasedTimestampWeightedTally', 'SimWeightedTally', 'SimPersistent']
     T.rejected_input(ctx, 'R10.2', classes)
+    T.coercion_before_write(ctx, 'R10.2b', ['WeightedTally', 'TimestampWeightedTally'])
     T.reset_completeness(ctx, 'R10.3', classes)
     T.timestamp_protocol(ctx)
     ctx.rule('R10.5', 'NaN exactly when undefined: weighted mean / population variance defined from 1 observation, sample variants from 2 non-zero weights')
